@@ -893,7 +893,7 @@ Qed.
    track k is the first video track, points into the file, lists sample 1 in stss, segment starts are found, the guard
    nonzero_dur_syncs, every planned segment of it below 2 GiB; lz: one chunk-offset box).  This is the form the W
    correspondence EVALUATES on the files the built segmenter was run on: where it is true, the files the tool wrote for
-   the reference track must each start with a sync sample (evidence: notes.correspondence.sync_theorem_applies). *)
+   the reference track must each start with a sync sample (evidence: coverage.correspondence.sync_theorem_applies). *)
 From V.c11 Require Import C11SyncBoolProofs.
 Theorem C11_segmenter_segments_start_sync_applies : forall (f : pfile) (trs : list itrack) k d,
   ref_sync_hyps false f trs k d = true ->
